@@ -314,3 +314,44 @@ def install_late(spec: Spec):
             raises_tags=['C03', 'C04', 'C11'],
             raises=[RaisesClause('CancelledError', label='cancelled', tags=['C04', 'C10']),
                     RaisesClause('Exception', label='unexpected', origin='call:EventBus.process_event/unexpected')])
+
+    # ------------------------------------------------------------------ result accessors (C11 C12)
+    spec.fn('EventResult.__await__.wait', file=M, qual='EventResult.__await__.<locals>.wait_for_handler_to_complete_and_return_result', is_async=True, trusted=True,
+            params={'self': 'EventResult'}, returns='any', interference='handlers',
+            raises=[RaisesClause('Exception', label='recorded_error_or_timeout'), RaisesClause('CancelledError', label='cancelled')],
+            notes='awaiting a single EventResult: waits for its handler-completed signal (bounded by its timeout), re-raises its recorded error, else returns its value; assumed. '
+                  'Recorded errors are taken to be Exceptions (a recorded CancelledError would be re-raised past `except Exception`)')
+    spec.methods[('EventResult', '__await__')] = 'EventResult.__await__.wait'
+
+    def include_pure(ex, n):
+        f = ex.lookup('include')
+        r = ex.eval(n.args[0])
+        return mk_bool_(holds_fn(coerce_(f).term, r.term))
+    holds_fn = z3.Function('user_include', Ref, Ref, z3.BoolSort())
+    from pyvc.values import mk_bool as mk_bool_, coerce as _coerce, ANY as _ANY
+    coerce_ = lambda v: _coerce(v, _ANY)
+    spec.specfuns.setdefault('holds', lambda ex, f, e: mk_bool_(holds_fn(coerce_(f).term, e.term)))
+
+    ER = 'self.event_results'
+    IS_ERR = lambda r: "(" + r + ".error is not None or isinstance(" + r + ".result, BaseException))"
+    spec.interference['results'] = Interference('results', havoc=['*'], keep=spec.interference['default'].keep,
+        rely=[Clause_of(('signal_objects_are_kept', "forall(lambda e: implies(old(e._event_completed_signal) is not None, e._event_completed_signal is old(e._event_completed_signal)), 'BaseEvent')", []))])
+    spec.fn('BaseEvent.event_results_filtered', file=M, qual='BaseEvent.event_results_filtered', is_async=True, interference='results', wf_fields=['event_results'],
+            params={'self': 'BaseEvent', 'timeout': 'opt[real]', 'include': 'any', 'raise_if_any': 'bool', 'raise_if_none': 'bool'}, returns='dict[str,EventResult]',
+            locals={'event_results': 'dict[str,EventResult]', 'included_results': 'dict[str,EventResult]', 'error_results': 'dict[str,EventResult]',
+                    'event_results_by_handler_id': 'dict[str,EventResult]'},
+            requires=[('in_loop', 'loop_running()', [])],
+            modifies=[('_event_completed_signal', 'self'), ('ev_set', '*'), ('task_done', '*')],
+            callsites={'include(event_result)': {'pure': include_pure}},
+            ensures=[('not_empty_when_raise_if_none', 'implies(raise_if_none, len(result) > 0)', ['C12'])],
+            raises=[RaisesClause('CancelledError', label='cancelled'),
+                    RaisesClause('TimeoutError', label='not_completed_in_time', origin='asyncio.wait_for'),
+                    RaisesClause('AssertionError', label='result_is_none', tags=['C12']),
+                    RaisesClause('BaseException', label='requested_raise', tags=['C11', 'C12'], origin='raise@',
+                                 ensures=[('only_if_asked', 'raise_if_any or raise_if_none', ['C11', 'C12'])]),
+                    RaisesClause('KeyError', label='dict_comprehension', caller_only=True)])
+    spec.methods[('BaseEvent', 'event_results_filtered')] = 'BaseEvent.event_results_filtered'
+
+    spec.fn('BaseEvent._event_result_is_truthy', file=M, qual='BaseEvent._event_result_is_truthy', params={'event_result': 'EventResult'}, returns='bool', allocates=False,
+            ensures=[('default_filter', "result == (event_result.status == 'completed' and event_result.result is not None and not isinstance(event_result.result, BaseException) "
+                                        "and event_result.error is None and not isinstance(event_result.result, BaseEvent))", ['C12'])])
